@@ -57,13 +57,41 @@ def trimAst (sd : TrimSide) (ln : TrimLength) (ast : Ast) (v : List Char) : List
   | .ok p => trimValue p v
   | .error _ => v
 
+/-! canonical text of a syntax tree in the notation of the `a` cases (inverse of `parseAst` below) -/
+
+def showBAtom : BracketAtom → String
+  | .char c => "c" ++ encChars [c]
+  | .collating v => "s" ++ encChars v
+  | .equiv v => "e" ++ encChars v
+  | .cls v => "k" ++ encChars v
+
+def showBItem : BracketItem → String
+  | .atom a => "a" ++ showBAtom a
+  | .range s e => "r" ++ showBAtom s ++ "~" ++ showBAtom e
+
+def showAtom : Atom → String
+  | .char c => "c" ++ encChars [c]
+  | .anyChar => "?"
+  | .anyString => "*"
+  | .bracket b => s!"b{bit b.complement}({";".intercalate (b.items.map showBItem)})"
+
+def showAst (ast : Ast) : String :=
+  if ast.isEmpty then "-" else ",".intercalate (ast.map showAtom)
+
+/-- the intermediate stages: parser output and translator output (`Ast::to_regex` under both anchors and none) -/
+def showStages (ast : Ast) : String :=
+  let re (cfg : Config) : String := match toRegex ast cfg with
+    | .ok r => encChars r
+    | .error e => "!" ++ showErr e
+  s!" S={showAst ast} R={re (mkCfg true true false false)},{re (mkCfg false false false false)}"
+
 /-- `ast`: what the model parser produced (model column); `sast`: what the Spec grammar `specParse` produced
     (Spec column) — equal by `parser_is_grammar`, computed independently here -/
 def observe (ast : Ast) (sast : Ast) (text : List Char) : String × String :=
   match Pattern.fromAst ast (mkCfg true true false false) with
   | .error e =>
     let spec := if astDefined sast then "FAIL:defined-pattern-rejected" else "-"
-    (s!"E={showErr e}", spec)
+    (s!"E={showErr e}{showStages ast}", spec)
   | .ok p0 =>
     let pat (ab ae sh lp : Bool) : Pattern :=
       match Pattern.fromAst ast (mkCfg ab ae sh lp) with
@@ -79,7 +107,7 @@ def observe (ast : Ast) (sast : Ast) (text : List Char) : String × String :=
       let p := pat ab ae false true
       s!"{bit (p.isMatch text)}{showRange text (p.find text)}"
     let t := trims.map fun (sd, ln) => encChars (trimAst sd ln ast text)
-    let obs := s!"E=ok L={bit lit} M={"".intercalate m} F={",".intercalate f} P={",".intercalate lp} T={",".intercalate t}"
+    let obs := s!"E=ok L={bit lit} M={"".intercalate m} F={",".intercalate f} P={",".intercalate lp} T={",".intercalate t}{showStages ast}"
     -- Spec
     let gm := globMatch sast text
     let spec :=
@@ -87,6 +115,12 @@ def observe (ast : Ast) (sast : Ast) (text : List Char) : String × String :=
       else if gm != (pat true true false false).isMatch text then "FAIL:is_match-vs-glob"
       else if ((substrings text).any (globMatch sast)) != (pat false false false false).isMatch text then
         "FAIL:unanchored-vs-glob"
+      -- every anchoring (`isMatch_any_config`) and glob's `literal_period` configuration (`literal_period_correct`)
+      else if [(false, false), (true, false), (false, true), (true, true)].any
+          (fun (ab, ae) => specIsMatch ab ae sast text != (pat ab ae false false).isMatch text) then
+        "FAIL:anchoring-vs-occurs"
+      else if specPeriodMatch sast text != (pat true true false true).isMatch text then
+        "FAIL:literal-period"
       -- shortest/longest with multi-character collating elements is outside the defined notation
       -- (POSIX locale has none; which of `a` / `ab` a bracket takes first is unspecified): not compared
       -- … on the PREFIX side; suffix removal is exact for every pattern (`suffix_trim_correct`)
@@ -96,12 +130,10 @@ def observe (ast : Ast) (sast : Ast) (text : List Char) : String × String :=
         | none => "ok"
     (obs, spec)
 
-def attrOf (quoted : Bool) (c : Char) : AttrChar := { value := c, isQuoted := quoted, isQuoting := false }
-def quoteMark : AttrChar := { value := '"', isQuoted := false, isQuoting := true }
-
-/-- the pattern characters of the shell word `"$q"$p` -/
+/-- the pattern characters of the shell word `"$q"$p` (`shellWord`: Model.lean; `shell_word_chars` proves this is
+    `q` as literal characters followed by `escapeChars p`) -/
 def shellPattern (q p : List Char) : List PatternChar :=
-  toPatternChars (applyEscapes ([quoteMark] ++ q.map (attrOf true) ++ [quoteMark] ++ p.map (attrOf false)))
+  toPatternChars (applyEscapes (shellWord q p))
 
 def observeShell (subj q1 p1 q2 p2 : List Char) : String × String :=
   let pa := shellPattern q1 p1
